@@ -20,7 +20,6 @@ func VerifC14Response(k int) {
 	overflowBeforeAnythingSent := false
 	overflow := false
 	explicitStatus := 0
-	flushBeforeFirstWrite := false
 	wroteAny := false
 	// a bodiless response (HEAD, 304) may legitimately declare the length of the entity it does not send
 	declared := []string{"", "1", "4", "9", "1000000"}[verifrt.Choice("declaredContentLength", 5)]
@@ -54,9 +53,6 @@ func VerifC14Response(k int) {
 				total += n
 				wroteAny = true
 			case 2:
-				if !wroteAny {
-					flushBeforeFirstWrite = true
-				}
 				w.(http.Flusher).Flush()
 				ref.Flush()
 			case 3:
@@ -75,8 +71,6 @@ func VerifC14Response(k int) {
 		if st == 0 {
 			st = 200
 		}
-		verifrt.Known("C14-bodiless-status-lost", verifrt.And(!wroteAny, st != 200))
-		verifrt.Known("C14-flush-before-write", verifrt.And(flushBeforeFirstWrite, st != 200))
 		verifrt.Assert(rec.status == ref.status, "within the limit the status code passes through unchanged (also for bodiless responses)")
 		verifrt.Assert(string(rec.body) == string(ref.body), "within the limit the body passes through unchanged")
 		verifrt.Assert(rec.wire.Get("Content-Type") == "text/plain" && rec.wire.Get("Content-Length") == declared && len(rec.wire) == len(ref.wire), "within the limit the headers pass through unchanged")
